@@ -147,6 +147,10 @@ StateFails(j, S, D, m) ==
                 (PartitionOKD(S.kf, D.reach, D.kfs) /\ PartitionOKD(S.vf, D.rvals \cap VSlots(S), D.vfs))
              THEN {} ELSE {"C06.partition"})
        \cup (IF ~(chok /\ vrok /\ flok) \/ FitsOKD(S, D) THEN {} ELSE {"C09.fits"})
+       \* a record of a reachable piece that needs more bytes than its slot has (it has spilled into the piece
+       \* behind it; the structural conjuncts then fail as well, this one names the cause)
+       \cup (IF \E i \in 1..Len(j.ks) : j.ks[i].off \in D.reach /\ j.ks[i].need > j.ks[i].size THEN {"C09.fits"} ELSE {})
+       \cup (IF \E i \in 1..Len(j.vs) : j.vs[i].off \in D.rvals /\ j.vs[i].need > j.vs[i].size THEN {"C09.fits"} ELSE {})
        \cup (IF j.hdr_zero = <<TRUE, TRUE, TRUE>> THEN {} ELSE {"C12.header"})
        \cup (IF ~Known(m) \/ ~(chok /\ vrok) \/ AbsMapD(S, D) = mem[m] THEN {} ELSE {"C05.content"})   \* an independent reader recovers the contents
 
@@ -419,7 +423,9 @@ Proc(e) ==
                          \* binding of AbyScan: when the design state is tracked, the ORDER in which the real iterator
                          \* yields is the one the transcribed bitmap scan predicts (a mismatch is design drift only:
                          \* the property does not constrain the order)
-                         !.drift = IF tracked /\ e.outcome = "ok" /\ ~e.overrun
+                         \* (tables above 2^17 buckets excepted: the literal scan of the default table's 16 Mi buckets
+                         \*  takes TLC longer than every other event of a history together)
+                         !.drift = IF tracked /\ e.outcome = "ok" /\ ~e.overrun /\ st[m].n <= 131072
                                    THEN LET it == Iterate(st[m])
                                             pred == CASE e.flavour = "keys"   -> [i \in 1..Len(it.items) |-> <<it.items[i][1], 0>>]
                                                       [] e.flavour = "values" -> [i \in 1..Len(it.items) |-> <<0, it.items[i][2]>>]
